@@ -125,7 +125,7 @@ class Recorder:
 
 
 def run_split(mods, data, sr, sw, ch, durs, flags, container="bytes", spelling=None, tmpdir=None,
-              validator="custom", max_read=None, method=False, val_kind="callable", limit=None, extra=None):
+              validator="custom", max_read=None, method=False, val_kind="callable", limit=None, extra=None, region_obj=None):
     """Run the real split() once and return the event list.
     durs: dict(min_dur, max_dur, max_silence, analysis_window) floats; flags: (drop, strict).
     spelling: dict name -> 'long' | 'short' | 'both' for the alias pairs."""
@@ -154,7 +154,7 @@ def run_split(mods, data, sr, sw, ch, durs, flags, container="bytes", spelling=N
     if container in ("bytes",):
         inp = data
     elif container == "region":
-        inp = core.AudioRegion(data, sr, sw, ch)
+        inp = region_obj if region_obj is not None else core.AudioRegion(data, sr, sw, ch)
         need_params = False
     elif container == "source":
         inp = aio.BufferAudioSource(data, sr, sw, ch)
@@ -196,9 +196,9 @@ def run_split(mods, data, sr, sw, ch, durs, flags, container="bytes", spelling=N
             kw["large_file"] = True
         if container == "wav_fmt":
             put("audio_format", "fmt", "wave", "raw")
-    elif container == "stdin":
+    elif container in ("stdin", "stdin_pipe"):
         old = sys.stdin
-        sys.stdin = FakeStdin(data)
+        sys.stdin = FakeStdin(data, None if container == "stdin" else [bps + 1, 3, 2 * bps, 1, 7 * bps + 2])
         cleanup.append(lambda: setattr(sys, "stdin", old))
         inp = "-"
     if need_params:
@@ -253,6 +253,14 @@ def run_split(mods, data, sr, sw, ch, durs, flags, container="bytes", spelling=N
         for c in cleanup:
             c()
     return ev
+
+
+def core_split_regions(M, data, case):
+    core = M[0]
+    rec = Recorder(M[0], M[1], M[2], case["sw"], case["ch"])
+    d = to_floats(case["units"])
+    return core.split(data, d["min_dur"], d["max_dur"], d["max_silence"], case["flags"][0], case["flags"][1], analysis_window=d["analysis_window"],
+                      validator=rec.custom_validator(), sampling_rate=case["sr"], sample_width=case["sw"], channels=case["ch"])
 
 
 def regs_of(ev):
@@ -417,7 +425,7 @@ def c06_cases(rng, tier, M):
 # ------------------------------------------------------------------------------------------------
 # C09 variants
 # ------------------------------------------------------------------------------------------------
-CONTAINERS = ["bytes", "region", "source", "reader", "raw", "raw_lazy", "raw_fmt", "wav", "wav_lazy", "wav_fmt", "wav_path", "stdin"]
+CONTAINERS = ["bytes", "region", "source", "reader", "raw", "raw_lazy", "raw_fmt", "wav", "wav_lazy", "wav_fmt", "wav_path", "stdin", "stdin_pipe"]
 PAIRS = ["sampling_rate", "sample_width", "channels", "analysis_window", "validator", "audio_format", "max_read"]
 
 
@@ -461,10 +469,23 @@ def c09_group(rng, tier, M, tmpdir):
         out.append({"c": cc, "ev": ev, "peer": peer, "usepeer": True,
                     "info": f"container={cont} spelling={sp} validator={valmode} method={method} extra={extra}"})
     # max_read = t  ==  first round(t*rate) samples
-    for _ in range(2):
+    for rep in range(4):
         keep = rng.randint(0, n + B)
         t = None
+        if rep >= 2 and sr in (8, 16, 8000, 16000):
+            # exact tie: (keep +- 0.5) / rate is exactly representable and Python's round() (half to even) gives the EVEN
+            # neighbour keep; the cut is placed inside an active window so that one sample more or less is visible
+            act = [k for k, v in enumerate(case["pat"]) if v]
+            if act:
+                k = rng.choice(act)
+                keep = k * B + rng.randint(0, max(0, B - 1))
+            keep -= keep % 2
+            t = (keep + (0.5 if rep == 2 else rng.choice([0.5, -0.5]))) / sr
+            if t < 0 or Fraction(t) * sr != Fraction(2 * keep + (1 if t * sr > keep else -1), 2):
+                t = None
         for _ in range(30):
+            if t is not None:
+                break
             cand = (keep + rng.choice([-0.3, 0, 0.3])) / sr
             cand = float(f"{cand:.9g}")
             if cand >= 0 and safe_round(cand, sr) == keep:
@@ -545,6 +566,19 @@ def check(prop, tier, replay=None):
                            validator=rng.choice(["custom", "custom", "energy"]))
             traces.append({"c": cfg_of(case["units"], case["sr"], case["B"], case["flags"]), "ev": ev,
                            "info": f"container={cont} fmt={case['sw']}x{case['ch']} tail={case['tail']}"})
+            if i % 4 == 0:
+                # two-step history: a region that came out of split() (start > 0) is split again -- times are relative to ITS beginning
+                try:
+                    first = list(core_split_regions(M, data, case))
+                except Exception:
+                    first = []
+                for g in first[1:3]:
+                    sub = bytes(g)
+                    meth = rng.random() < .5
+                    ev2 = run_split(M, sub, case["sr"], case["sw"], case["ch"], to_floats(case["units"]), case["flags"], container="region",
+                                    method=meth, region_obj=g)
+                    traces.append({"c": cfg_of(case["units"], case["sr"], case["B"], case["flags"]), "ev": ev2,
+                                   "info": f"second split of a detection starting at {g.start} s (method={meth})"})
     elif prop == "C06":
         leg_m_durations(V, wd, tier)
         traces += c06_cases(rng, tier, M)
